@@ -234,6 +234,15 @@ func (s *Stats) Report(t Fataler, unit string, v *Violation, caseObj any) bool {
 		s.mu.Unlock()
 		return true
 	}
+	// a shared executor may notice a violation of another property than the
+	// one this invocation decides: count it, abandon the case, keep searching
+	if want := os.Getenv("VERIF_PROPERTY"); want != "" && v.Property != want {
+		f := For(want)
+		f.mu.Lock()
+		f.Extra["foreign_violation:"+v.Property+":"+v.Signature]++
+		f.mu.Unlock()
+		return true
+	}
 	v.Replay = WriteReplay(s.Property, unit, v, caseObj)
 	s.mu.Lock()
 	s.Violations[unit] = v // the last failing execution (the shrunk one) wins
